@@ -429,6 +429,7 @@ type Fault struct {
 	Bit  uint   `json:"bit,omitempty"`  // bitflip: bit number within the byte at Off
 	What string `json:"what,omitempty"` // bitflip: which field (len, type, crc, dlen, payload, pad) of which record type
 	Drop bool   `json:"drop,omitempty"` // remove the segment files after File (the crash happened before the cut created them)
+	Lo   int64  `json:"lo,omitempty"`   // sector-subset: start of the unsynced region (bytes before it stay as they are)
 	Size int64  `json:"size,omitempty"` // size File has in the faulted image when not implied (trunc-zero on a segment that the cut shortened)
 }
 
@@ -491,8 +492,11 @@ func (f Fault) apply(im *Image, base *Image) (*Image, error) {
 		nb := make([]byte, end)
 		copy(nb, cur.Data)
 		w0 := f.Off / sector * sector
+		if w0 < f.Lo {
+			w0 = f.Lo // bytes before the unsynced region are on disk (synced data, segment head)
+		}
 		for x := w0; x < end; x++ {
-			s := int((x - w0) / sector)
+			s := int((x - f.Off/sector*sector) / sector)
 			if s < f.N && f.Mask&(1<<uint(s)) != 0 {
 				continue
 			}
